@@ -20,7 +20,7 @@ func (c07) NumCases(tier string) int {
 	if tier == "thorough" {
 		return 600_000
 	}
-	return 36_000
+	return 30_000
 }
 
 func (c07) Describe() CheckInfo {
@@ -398,6 +398,60 @@ func (c07) Eval(env *Env, c *Case) []Violation {
 			add("failure-but-written", mode+flags, fmt.Sprintf("%s was modified although the run reports failure", subj.Path))
 		case emitted && r.Exit != 0 && named:
 			add("failure-but-emitted", mode+flags, fmt.Sprintf("gopatch reports an error for %s but still emitted content for it", subj.Path))
+		}
+	}
+	// ---- in-place emission when the write itself goes wrong ---------------------------
+	// A write that fails part-way, a close or rename that fails, a full disk: if
+	// gopatch then still reports success, what it left on disk must parse.
+	if mode == "in-place" && note == "" && (c.Idx%3 == 0 || len(c.Spec.Faults) > 0) {
+		fr := world.NewPRNG(world.Mix(c.Seed, 707, uint64(c.Idx)))
+		judgeFault := func(faults []world.Fault) {
+			spec := c.Spec.Clone()
+			spec.Faults = faults
+			rf := env.Run(spec)
+			if len(rf.Fired) == 0 || rf.Outcome != OutExit || rf.Exit != 0 {
+				return // a reported failure is C16's subject
+			}
+			env.Probe("write-fault-then-success")
+			for p, g := range goFiles(rf.Final) {
+				o, ok := orig[p]
+				if ok && bytes.Equal(o.Data, g.Data) {
+					continue
+				}
+				if err := ParsesAsGo(g.Data); err != nil {
+					cc := c.Clone()
+					cc.Spec.Faults = faults
+					f0 := rf.Fired[0]
+					vs = append(vs, Violation{Oracle: "unparseable-emission", Signature: "C07/unparseable-emission/in-place-after-" + f0.Name + "-fault" + flags, Case: cc,
+						Detail: fmt.Sprintf("after an injected failure of %s %s (%s, %d bytes let through) gopatch exits 0 and %s holds content that does not parse (%v): %q [%s, args %v]", f0.Name, f0.Path, f0.Err, f0.N, p, err, clip(string(g.Data), 200), fam, c.Spec.Args)})
+					return
+				}
+			}
+		}
+		if len(c.Spec.Faults) > 0 {
+			judgeFault(c.Spec.Faults)
+		} else {
+			wrote := wroteHandles(r.Log)
+			n := 0
+			for k, o := range r.Log {
+				cl := opClass(o, wrote)
+				if cl != "write" && cl != "close-w" && cl != "rename" && cl != "open-w" {
+					continue
+				}
+				if n++; n > 16 {
+					break
+				}
+				ens := c16Errnos[cl]
+				f := world.Fault{AtOp: k, Kind: "fail", Errno: ens[fr.Intn(len(ens))]}
+				if o.Name == "write" && o.N > 0 {
+					f.Bytes = fr.Intn(o.N)
+				}
+				judgeFault([]world.Fault{f})
+				if o.Name == "write" {
+					f.Sticky = true
+					judgeFault([]world.Fault{f})
+				}
+			}
 		}
 	}
 	// ---- library API -------------------------------------------------------------
